@@ -20,6 +20,7 @@ class Ctx:
     self.assumptions = []
     self.compaction = compaction
     self.notes = []
+    self.guard = True      # presence condition of the row being evaluated (for conditional assumptions)
 
 
 def has_agg(e):
@@ -191,6 +192,8 @@ def ev_call(e, env, ctx, group):
       f = base.fields[sel[1]]
       return V.ite_val(NOT(base.null), f, V.null_like(f)) if base.null is not False else f
     idx = V.to_S(ev(sel[1], env, ctx, group))
+    # SQLite raises "JSON path error" for a negative index: outside the claim (assumed away)
+    ctx.assumptions.append(OR(idx.null, V.LE(0, idx.v)))
     return V.list_element(base, idx)
   if name == 'JSON_ARRAY_LENGTH':
     l = ev(args[0], env, ctx, group)
@@ -320,6 +323,14 @@ def eval_select(q, ctx, outer_env=None):
 
 
 def eval_core(core, ctx, outer_env, q):
+  saved_guard = ctx.guard
+  try:
+    return _eval_core(core, ctx, outer_env, q)
+  finally:
+    ctx.guard = saved_guard
+
+
+def _eval_core(core, ctx, outer_env, q):
   if core[0] == 'union':
     parts = [eval_select(p, ctx, outer_env) for p in core[1] if p is not None]
     if not parts:
@@ -333,6 +344,7 @@ def eval_core(core, ctx, outer_env, q):
     rel = Rel(cols, slots)
     return order_limit(rel, q, ctx, None)
   sel = core[1]
+  outer_guard = ctx.guard
   base_env = Env({}, outer_env)
   combos = [(True, base_env)]
   ordered_input = False
@@ -352,6 +364,7 @@ def eval_core(core, ctx, outer_env, q):
           new.append((gg, env.extend(item[2], dict(zip(rel.cols, row)))))
     elif item[0] == 'sub':
       for g, env in combos:
+        ctx.guard = AND(outer_guard, g)
         rel = eval_select(item[1], ctx, env)
         if len(sel['from']) == 1 and rel.ordered:
           ordered_input = True
@@ -362,6 +375,7 @@ def eval_core(core, ctx, outer_env, q):
           new.append((gg, env.extend(item[2], dict(zip(rel.cols, row)))))
     elif item[0] == 'each':
       for g, env in combos:
+        ctx.guard = AND(outer_guard, g)
         l = ev(item[1], env, ctx)
         if not isinstance(l, L):
           raise Unsupported('JSON_EACH of non-list')
@@ -375,6 +389,7 @@ def eval_core(core, ctx, outer_env, q):
   if sel['where'] is not None:
     new = []
     for g, env in combos:
+      ctx.guard = AND(outer_guard, g)
       c = V.to_B(ev(sel['where'], env, ctx)).true()
       gg = AND(g, c)
       if gg is False:
@@ -397,6 +412,7 @@ def eval_core(core, ctx, outer_env, q):
   if not aggregating:
     slots = []
     for g, env in combos:
+      ctx.guard = AND(outer_guard, g)
       slots.append((g, [V.to_S(ev(e, env, ctx)) for e, _ in sel['items']]))
     rel = Rel(names, slots, ordered=ordered_input)
     return order_limit(rel, q, ctx, combos)
